@@ -30,7 +30,11 @@ def to_smt2(pc, goal, witness=None) -> str:
     # names their values (does not change satisfiability)
     for name, term in (witness or {}).items():
         s.add(z3.Const("wit_" + name, term.sort()) == term)
-    return s.to_smt2()
+    text = s.to_smt2()
+    # z3 prints single characters as (seq.unit (_ Char n)) / (_ Char n): cvc5 wants string literals
+    text = re.sub(r"\(seq\.unit \(_ Char (\d+)\)\)", lambda m: '"\\u{%x}"' % int(m.group(1)), text)
+    text = re.sub(r"\(seq\.unit \(_ char #x([0-9a-fA-F]+)\)\)", lambda m: '"\\u{%s}"' % m.group(1).lstrip("0") or "0", text)
+    return text
 
 
 def _model_dict(m: z3.ModelRef) -> dict:
@@ -298,6 +302,33 @@ def theory_lemmas(formulas):
                 off = z3.IntVal(0) if not lens else (lens[0] if len(lens) == 1 else z3.Sum(lens))
                 out.append(z3.Implies(z3.And(*before, z3.PrefixOf(c, parts[j])), e == off))
             out.append(z3.Implies(z3.And(*[z3.Not(z3.Contains(a, c)) for a in parts]), e == -1))
+        elif e.decl().kind() in (z3.Z3_OP_SEQ_EXTRACT, z3.Z3_OP_SEQ_AT) and e.get_id() not in done:
+            # substr / at over a concatenation: when offset and length line up with the pieces
+            is_at = e.decl().kind() == z3.Z3_OP_SEQ_AT
+            T, off = e.arg(0), e.arg(1)
+            n = z3.IntVal(1) if is_at else e.arg(2)
+            parts = _flatten_concat(T)
+            if len(parts) < 2 or len(parts) > 6:
+                continue
+            done.add(e.get_id())
+
+            def total(ps):
+                ls = [z3.Length(a) for a in ps]
+                return z3.IntVal(0) if not ls else (ls[0] if len(ls) == 1 else z3.Sum(ls))
+            for j in range(len(parts)):
+                if is_at:
+                    out.append(z3.Implies(z3.And(off == total(parts[:j]), z3.Length(parts[j]) >= 1), e == z3.SubString(parts[j], 0, 1)))
+                    continue
+                for k in range(j, len(parts)):
+                    piece = parts[j] if k == j else z3.Concat(*parts[j:k + 1])
+                    out.append(z3.Implies(z3.And(off == total(parts[:j]), n == total(parts[j:k + 1])), e == piece))
+                # a slice from the start that covers the first j+1 pieces has them as a prefix
+                if not is_at:
+                    pre = parts[0] if j == 0 else z3.Concat(*parts[:j + 1])
+                    out.append(z3.Implies(z3.And(off == 0, n >= total(parts[:j + 1])), z3.PrefixOf(pre, e)))
+                # a slice that stays inside one piece
+                out.append(z3.Implies(z3.And(off >= total(parts[:j]), off + n <= total(parts[:j + 1]), n >= 0),
+                                      e == z3.SubString(parts[j], off - total(parts[:j]), n)))
     return out
 
 
